@@ -20,6 +20,13 @@ from .absint import (Interp, Int, Const, NONE, TRUE, FALSE, NodeV, TupleV, ListO
 from .ordertype import Undetermined
 
 
+class ForeignPairAccess(AbstractRaise):
+    """The directed mutator reaches for the stored data of the *reverse* pair (v, u): pairs are ordered and independent."""
+
+    def __init__(self, node):
+        super().__init__("ForeignPairAccess", node, detail="reads or writes the attribute dict of the reverse pair")
+
+
 class AdjMap:
     def __init__(self, store):
         self.store = store          # 'adj' | 'succ' | 'pred'
@@ -227,7 +234,11 @@ class GraphWorld:
         for (s, a, b, obj) in self.links:
             if (s, a, b) == (store, r1, r2):
                 return True
+        if self.cfg.get("loop"):
+            return bool(self.cfg.get("exists")) and (r1, r2) == ("U", "U")
         if not self.directed:
+            if r1 == r2:
+                return False
             return bool(self.cfg.get("exists")) if {r1, r2} == {"U", "V"} else self._other_pair(r1, r2)
         fwd = (store == "succ" and (r1, r2) == ("U", "V")) or (store == "pred" and (r1, r2) == ("V", "U"))
         if fwd:
@@ -253,7 +264,8 @@ class GraphWorld:
         fwd = (store == "succ" and (r1, r2) == ("U", "V")) or (store == "pred" and (r1, r2) == ("V", "U"))
         if fwd:
             return self.datadict
-        return Opaque("datadict of the reverse pair")
+        self.errors.append(("foreign_pair_data", "%s[%s][%s]" % (store, r1, r2), getattr(node, "lineno", 0)))
+        raise ForeignPairAccess(node)
 
     # -- interpreter hooks ---------------------------------------------------------
     def load_attr(self, ip, obj, attr, node):
@@ -572,7 +584,29 @@ class GraphWorld:
     def resolve_name(self, ip, name, node):
         return None
 
+    def adjacency_rows(self, store):
+        """Concrete view of an adjacency store for the modelled pair: {role: {role: datadict}}."""
+        if not self.cfg.get("exists"):
+            raise Unsupported(None, "enumeration of the adjacency in a world without a stored pair")
+        u, v = "U", ("U" if self.cfg.get("loop") else "V")
+        rows = {u: {}, v: {}}
+        if self.directed:
+            if store == "succ":
+                rows[u][v] = self.datadict
+            else:
+                rows[v][u] = self.datadict
+        else:
+            rows[u][v] = self.datadict
+            rows[v][u] = self.datadict
+        return rows
+
     def concretise_iter(self, ip, it, node):
+        if isinstance(it, AdjMap):
+            return ListObj([NodeV(r) for r in self.adjacency_rows(it.store)])
+        if isinstance(it, AdjRow):
+            return ListObj([NodeV(r) for r in self.adjacency_rows(it.store).get(it.role, {})])
+        if isinstance(it, NodeMap):
+            return ListObj([NodeV(r) for r in self.adjacency_rows("succ" if self.directed else "adj")])
         return None
 
     def exec_special_for(self, ip, st, it, env):
@@ -592,6 +626,16 @@ class GraphWorld:
         self.__dict__.setdefault("yields", []).append(v)
 
     def compare(self, ip, a, sym, b, node):
+        if isinstance(a, NodeV) and isinstance(b, NodeV) and sym in ("<", "<=", ">", ">="):
+            # node ids are arbitrary hashables: they need not be orderable, and if they are the order is arbitrary
+            if a.role == b.role:
+                return sym in ("<=", ">=")
+            if not self.choose("node-ids-orderable"):
+                raise AbstractRaise("TypeError", node, detail="'%s' between node ids that are not orderable (e.g. an int and a str)" % sym)
+            first, second = sorted((a.role, b.role))
+            lt = self.choose("node-order:%s<%s" % (first, second))
+            a_lt_b = lt if a.role == first else not lt
+            return a_lt_b if sym in ("<", "<=") else not a_lt_b
         if isinstance(a, MinLen) and isinstance(b, Const) and isinstance(b.v, int):
             m, c = a.n, b.v
             if sym == ">" and m > c:
@@ -670,6 +714,20 @@ class GraphWorld:
                 finally:
                     ip.depth -= 1
             raise Unsupported(node, "call of self.%s" % name)
+        if isinstance(obj, AdjMap) and name in ("items", "keys", "values") and not args:
+            rows = self.adjacency_rows(obj.store)
+            if name == "keys":
+                return ListObj([NodeV(r) for r in rows])
+            if name == "values":
+                return ListObj([AdjRow(obj.store, r) for r in rows])
+            return ListObj([TupleV([NodeV(r), AdjRow(obj.store, r)]) for r in rows])
+        if isinstance(obj, AdjRow) and name in ("items", "keys", "values") and not args:
+            row = self.adjacency_rows(obj.store).get(obj.role, {})
+            if name == "keys":
+                return ListObj([NodeV(r) for r in row])
+            if name == "values":
+                return ListObj(list(row.values()))
+            return ListObj([TupleV([NodeV(r), d]) for r, d in row.items()])
         if isinstance(obj, AdjRow) and name == "get" and 1 <= len(args) <= 2 and isinstance(args[0], NodeV):
             if self.pair_exists(obj.store, obj.role, args[0].role):
                 return self.pair_dict(obj.store, obj.role, args[0].role, node)
